@@ -51,8 +51,10 @@ fn run_scenario(line: &str) -> Vec<String> {
         }
         let sig_spec = r[1].clone();
         let view = parse_view(&r[2]);
+        // `synccf`: the same render with every element's children built before the element itself
+        set_children_first(mode == "synccf");
         let res = panic::catch_unwind(AssertUnwindSafe(|| match mode.as_str() {
-            "sync" => {
+            "sync" | "synccf" => {
                 let mut n = 0;
                 let mut sc = (0, 0);
                 let s = render_to_string(|| {
